@@ -8,5 +8,7 @@ theorem identity_tie : GenElementAPI.identity F = Hand.Element.identity F := rfl
 /-- `Set` and `Copy` store / return exactly the coordinates of their source (value copies, no sharing) -/
 theorem set_tie (v : Pt α) : GenElementAPI.set F v = v := rfl
 theorem copy_tie (e : Pt α) : GenElementAPI.copy F e = e := rfl
+/-- `Base()` regenerated (the two coordinate constants copied limb for limb, `z = 1`) is the model's base point -/
+theorem base_tie : GenElementAPI.base Hand.limbOps = Hand.ElementL.base := rfl
 
 end ElementApiTies
